@@ -17,6 +17,8 @@ import (
 )
 
 func init() {
+	// one make() in instrumented code may not exceed this (see simrt.AllocGuard)
+	simrt.AllocLimit = 64 << 20
 	zerolog.SetGlobalLevel(zerolog.Disabled)
 	if os.Getenv("VERIF_LOG") != "" { // debugging aid only; logging never draws from the tape
 		zerolog.SetGlobalLevel(zerolog.ErrorLevel)
